@@ -35,6 +35,7 @@ def check(repo, res, tier):
     cls = M.sim_class(repo)
     _check_loopdep(repo, res, cls)
     _check_lookup(repo, res, cls)
+    _check_interp(repo, res, cls)
     _check_gridio(repo, res, cls)
 
 
@@ -160,6 +161,49 @@ def _check_lookup(repo, res, cls):
                   "a target before the first recorded time maps to %s (index wraps around)" % (out,), node=f.node)
     except Undecided as e:
         res.undecided("R-LOOKUP", f, "clip-at-start", str(e))
+
+
+def _check_interp(repo, res, cls):
+    """tau-leap output: every state column is np.interp(target grid, run times, that column)"""
+    from ..core.symarr import SymArr, np_summaries
+    f = repo.resolve_method(cls, "_interpolateObservationAtTime")
+    if f is None:
+        raise AnalysisError("_interpolateObservationAtTime vanished")
+    X = SymArr.symbols("X", (4, 2))
+    times = [0.0, 1.0, 2.5, 4.0]
+    targets = [0.0, 2.0, 4.0]
+    calls = []
+    summ = np_summaries()
+
+    def interp(x, xp, fp, *a, **k):
+        calls.append((list(x), list(xp), fp))
+        col = len(calls) - 1
+        return SymArr.symbols("I%d" % col, (len(list(x)),))
+    summ["np.interp"] = interp
+    try:
+        kind, out = Abs({}, {}, summ, Obj("Model")).run_function(f.node, {f.params[1]: X.copy(), f.params[2]: list(times), f.params[3]: list(targets)})
+    except Undecided as e:
+        res.undecided("R-LOOKUP", f, "interpolate", "outside the modelled subset: %s" % e)
+        return
+    problems = []
+    if kind != "return":
+        problems.append("raises %s" % (out,))
+    else:
+        if len(calls) != 2:
+            problems.append("%d interpolations for 2 states" % len(calls))
+        for i, c in enumerate(calls[:2]):
+            if c[0] != targets or c[1] != times:
+                problems.append("state %d is interpolated at %s over %s, expected the target grid over the run times" % (i, c[0], c[1]))
+            if not (isinstance(c[2], SymArr) and c[2].same(X[:, i])):
+                problems.append("state %d interpolates %s instead of its own column" % (i, c[2]))
+        if isinstance(out, SymArr) and out.shape == (3, 2) and len(calls) == 2:
+            for i in range(2):
+                if not out[:, i].same(SymArr.symbols("I%d" % i, (3,))):
+                    problems.append("interpolated state %d is not stored in column %d" % (i, i))
+        else:
+            problems.append("output is %r, expected a (targets x states) array" % (out,))
+    res.check(not problems, "R-LOOKUP", f, "interpolate", "tau-leap rows: column i = np.interp(target grid, run times, column i), one row per target",
+              "; ".join(problems), node=f.node)
 
 
 def _check_gridio(repo, res, cls):
